@@ -207,7 +207,9 @@ def run(pid, tier, seed, replay_only=None):
     for ob in obs:
         if '[folded]' in ob.note or isinstance(ob, CachedOb):
             continue
-        jobs.append({'id': ob.id, 'texts': ob.texts(eng.ctx), 'budget_s': budget, 'expect': ob.expect})
+        # reachability covers only need a quick look: `unknown` counts as reachable anyway
+        jobs.append({'id': ob.id, 'texts': ob.texts(eng.ctx), 'budget_s': (budget if ob.expect == 'unsat' else min(budget, 2.0)),
+                     'expect': ob.expect})
     sjobs = []
     for q, so in sentinels.items():
         for ob in so:
@@ -217,7 +219,7 @@ def run(pid, tier, seed, replay_only=None):
     res = solve.solve_all(jobs + sjobs)
     res.update(cached_res)
     # retry inconclusive ones with a larger budget, few at a time (load robustness)
-    retry = [j for j in jobs if not res[j['id']]['ok'] and res[j['id']]['verdict'] in ('unknown', 'error')]
+    retry = [j for j in jobs if j['expect'] == 'unsat' and not res[j['id']]['ok'] and res[j['id']]['verdict'] in ('unknown', 'error')]
     if retry and len(retry) <= 12:
         for j in retry:
             j['budget_s'] = budget * 4
